@@ -63,7 +63,7 @@ def runs(tier):
     cfgs.append(mk([2], nca=2, cases=[list(c) for c in rnd.sample(allc2, 12)], shuffle=False, kind="nested"))
     cfgs.append(mk([], nca=2, cases=[list(c) for c in rnd.sample(allc2, 10)], shuffle=True, pool=True, kind="flat"))
     out.append(dict(name="C02_big", configs=cfgs, max_perm=4, check=False,
-                    simulate=120 if tier == "quick" else 2000, depth=200))
+                    simulate=120 if tier == "quick" else 6000, depth=200))
     return out
 
 
@@ -72,7 +72,7 @@ def run(rep):
                 "optional sub-grid x strategy x output form, overlap configurations, and simulates 3-4 case arguments; every terminal "
                 "behaviour is replayed with a placeholder kind; distinct = (config, permutation, history, variant); non-trivial = n >= 2 or rejected")
     rep.assumptions = ASSUME
-    sweep.drive(rep, runs(rep.tier), "C02", n_variants=2 if rep.tier == "quick" else 4)
+    sweep.drive(rep, runs(rep.tier), "C02", n_variants=2 if rep.tier == "quick" else 8)
 
 
 def replay(rep, saved):
